@@ -752,30 +752,52 @@ func genCase(r *gen.Rand, name string, flavour int) tcase {
 	}
 	switch flavour {
 	case 0:
-		// branch A (light) grows first, branch B forks one or two below the trunk top and wins with
-		// its last block: detach >= 2, attach >= 2
-		a1 := add(trunk, 2)
-		a2 := add(a1, 2)
-		fork := trunk - 1 - r.Intn(2)
-		b1 := add(fork, 2)
-		b2 := add(b1, 2)
-		b3 := add(b2, 2)
-		b4 := add(b3, int64(4+r.Intn(4)))
-		order = append(order, a1, a2, b1, b2, b3, b4)
-		// A fights back with a heavy block: second reorganisation, back to blocks connected before
-		a3 := add(a2, 30)
+		// branch A (light) grows first; branch B forks 1..3 below the trunk top, draws level block by
+		// block (side chain) and wins with its last block: several blocks detached and attached.
+		// Then A fights back with a heavy block: second reorganisation, back to blocks connected before.
+		na := 1 + r.Intn(3)
+		lastA := trunk
+		var as []int
+		for i := 0; i < na; i++ {
+			lastA = add(lastA, 2)
+			as = append(as, lastA)
+		}
+		fork := trunk - 1 - r.Intn(3)
+		nb := (trunk - fork) + na
+		lastB := fork
+		var bsIdx []int
+		for i := 0; i < nb; i++ {
+			lastB = add(lastB, 2)
+			bsIdx = append(bsIdx, lastB)
+		}
+		lastB = add(lastB, int64(4+r.Intn(4)))
+		bsIdx = append(bsIdx, lastB)
+		order = append(order, as...)
+		order = append(order, bsIdx...)
+		a3 := add(lastA, 30)
 		order = append(order, a3)
+		if r.Chance(1, 2) { // a late duplicate of a block that is now on a side chain
+			order = append(order, bsIdx[r.Intn(len(bsIdx))])
+		}
 	case 1:
 		// orphans: the winning branch arrives children first, so the whole branch is attached inside
 		// one ProcessBlock (ProcessOrphans) call; plus duplicates
 		a1 := add(trunk, 2)
-		fork := trunk - 1
-		b1 := add(fork, 3)
-		b2 := add(b1, 3)
-		b3 := add(b2, 3)
-		order = append(order, a1, b3, b2, a1, b1)
-		c1 := add(b3, 2)
-		order = append(order, c1, b2)
+		fork := trunk - 1 - r.Intn(2)
+		nb := 2 + (trunk - fork) + r.Intn(2)
+		lastB := fork
+		var bsIdx []int
+		for i := 0; i < nb; i++ {
+			lastB = add(lastB, 3)
+			bsIdx = append(bsIdx, lastB)
+		}
+		order = append(order, a1)
+		for i := len(bsIdx) - 1; i >= 1; i-- { // children first: orphans
+			order = append(order, bsIdx[i])
+		}
+		order = append(order, a1, bsIdx[0])
+		c1 := add(lastB, 2)
+		order = append(order, c1, bsIdx[len(bsIdx)/2])
 	default:
 		// random growth above the trunk
 		extra := 5 + r.Intn(4)
@@ -816,10 +838,10 @@ func genCase(r *gen.Rand, name string, flavour int) tcase {
 
 func genCases(seed uint64) []tcase {
 	r := gen.New(seed*0x9e37 + 29)
-	n := gen.Scale(2, 5)
+	n := gen.Scale(2, 8)
 	var cs []tcase
 	for i := 0; i < n; i++ {
-		cs = append(cs, genCase(r, fmt.Sprintf("c%d", i), i%3))
+		cs = append(cs, genCase(r, fmt.Sprintf("c%d", i), (i+int(seed%3))%3))
 	}
 	return cs
 }
